@@ -454,15 +454,17 @@ func runB(c *Case, r *mon.Rec, rng *rand.Rand, frames [][]byte, ref [][]byte, h 
 	ctx, cancel := context.WithCancel(context.Background())
 	served := make(chan error, 1)
 	lock := rng.Intn(3) != 0
-	// a quarter of the runs use a device that needs time: longer than the server's write timeout (50 ms by default) for one
-	// lock-step request, or 30 ms per request so that the requests completed by one read add up to more than that. The
+	// a quarter of the runs use a device that needs time: longer than the server's write timeout (300 ms in these runs) for
+	// one lock-step request, or 120 ms per request so that the requests completed by one read add up to more than that. The
 	// time a handler takes is not the client's fault: the reply is still owed.
 	h2 := srvx.DevHandler(dev, nil)
 	slow := c.Seed%4 == 1
+	s.WriteTimeout = 2 * time.Second // (the default 50 ms is scheduling noise on a loaded machine)
 	if slow {
-		d := 30 * time.Millisecond
+		s.WriteTimeout = 300 * time.Millisecond
+		d := 120 * time.Millisecond
 		if lock {
-			d = 70 * time.Millisecond
+			d = 400 * time.Millisecond
 		}
 		inner := h2
 		h2 = srvx.HandlerFunc(func(ctx context.Context, req packet.Request) (packet.Response, error) {
@@ -639,7 +641,7 @@ func errTimeout(err error) error { return err }
 // stream-level oracle applies: the bytes received equal the reference reply stream, nothing more, nothing less.
 func runL(c *Case, r *mon.Rec, rng *rand.Rand, frames [][]byte, ref [][]byte, h uint64) {
 	dev := simdev.New(devSeed(c), "srv")
-	s := &server.Server{OnErrorFunc: func(error) {}}
+	s := &server.Server{OnErrorFunc: func(error) {}, WriteTimeout: 2 * time.Second}
 	addrCh := make(chan net.Addr, 1)
 	s.OnServeFunc = func(a net.Addr) { addrCh <- a }
 	ctx, cancel := context.WithCancel(context.Background())
